@@ -5,5 +5,6 @@ CONSTANTS Depth = 1
 INVARIANT ConservativeIfOK
 INVARIANT AddedWellTyped
 INVARIANT OnlyOKAdded
+INVARIANT UniqueGround
 POSTCONDITION Post
 CHECK_DEADLOCK FALSE
